@@ -1299,6 +1299,9 @@ func (e *Enc) loadedRefFacts(h *Heap, key, srt, addr string) {
 		rdv = app("sarr", rdv)
 	}
 	for _, sc := range e.scratch {
+		if srt != "Slice" {
+			break // only slices are compared with scratch buffers (contents of byte slices vs. a buffer being refilled)
+		}
 		if sc.blk != nil && e.curBlock != nil && !sc.blk.Dominates(e.curBlock) {
 			continue // not allocated on every path to this point
 		}
